@@ -262,15 +262,16 @@ theorem C06_cron_dst (F : TFlags) (P : Params) (hC : CronForward P) (id : Nat) (
 
 /-! ## the wait across a daylight-saving change (real time vs. wall clock) -/
 
-/-- **The legacy re-check fires when the wall clock reads the instant.**  After the first sleep the loop re-checks
-`actual_now < time_next` and sleeps the difference.  If the first sleep ended with the wall clock at or before the instant
-(always the case for cron, whose `next_time_adj` is the exact real distance, and for once()/period() on a day made longer by a
-fall-back) and the zone offset does not change during the remaining wait, the function runs exactly when the wall clock
-reads `time_next` – whatever `time_next_adj` was. -/
-theorem C06_wait_legacy_on_time (Z : Zone) (next adj r1 : Int) (n : Nat) (hle : wallAt Z r1 ≤ next)
-    (hstable : Z.offReal (r1 + (next - wallAt Z r1)) = Z.offReal r1) :
-    wallAt Z (waitFire WFlags.legacy Z next adj (n + 1) r1) = next := by
-  simp only [waitFire, WFlags.legacy, Bool.false_eq_true, if_false]
+/-- **The re-check of both loops fires when the wall clock reads the instant.**  After the first sleep both loops (legacy
+`trigger_watch`; `TimeTriggerDecorator._cycle` since fix 0421163) compare the wall clock with `time_next` and sleep the
+difference.  If the first sleep ended with the wall clock at or before the instant (always the case for cron, whose
+`next_time_adj` is the exact real distance, and for once()/period() on a day made longer by a fall-back) and the zone offset
+does not change during the remaining wait, the function runs exactly when the wall clock reads `time_next` – whatever
+`time_next_adj` was.  Holds for every flag value that re-checks against `time_next`, in particular for both loops as they are. -/
+theorem C06_wait_on_time (W : WFlags) (hW : W.recheckAdj = false) (Z : Zone) (next adj r1 : Int) (n : Nat)
+    (hle : wallAt Z r1 ≤ next) (hstable : Z.offReal (r1 + (next - wallAt Z r1)) = Z.offReal r1) :
+    wallAt Z (waitFire W Z next adj (n + 1) r1) = next := by
+  simp only [waitFire, hW, Bool.false_eq_true, if_false]
   by_cases hlt : wallAt Z r1 < next
   · simp only [hlt, if_true]
     have hw : wallAt Z (r1 + (next - wallAt Z r1)) = next := by
@@ -279,25 +280,33 @@ theorem C06_wait_legacy_on_time (Z : Zone) (next adj r1 : Int) (n : Nat) (hle : 
     cases n with
     | zero => simpa [waitFire] using hw
     | succ k =>
-      simp only [waitFire, Bool.false_eq_true, if_false, hw, Int.lt_irrefl]
+      simp only [waitFire, hW, Bool.false_eq_true, if_false, hw, Int.lt_irrefl]
   · simp only [hlt, if_false]
     omega
+
+/-- the two loops as they are -/
+theorem C06_wait_on_time_both (Z : Zone) (next adj r1 : Int) (n : Nat)
+    (hle : wallAt Z r1 ≤ next) (hstable : Z.offReal (r1 + (next - wallAt Z r1)) = Z.offReal r1) :
+    wallAt Z (waitFire WFlags.legacy Z next adj (n + 1) r1) = next ∧
+    wallAt Z (waitFire WFlags.new Z next adj (n + 1) r1) = next :=
+  ⟨C06_wait_on_time WFlags.legacy rfl Z next adj r1 n hle hstable, C06_wait_on_time WFlags.new rfl Z next adj r1 n hle hstable⟩
 
 /-- America/Los_Angeles around 2024-11-03 09:00 UTC (fall-back): wall clock = real time − 7 h before, − 8 h after -/
 def zFall : Zone := ⟨fun r => if r < 1730624400000000 then -25200000000 else -28800000000⟩
 /-- … around 2024-03-10 10:00 UTC (spring-forward): − 8 h before, − 7 h after -/
 def zSpring : Zone := ⟨fun r => if r < 1710064800000000 then -28800000000 else -25200000000⟩
 
-/-- finding C06-F5 (new subsystem): `cron(0 6 * * *)`, last run Saturday 2024-11-02 06:00 PDT; `time_next` = Sunday 06:00,
-`time_next_adj` = 07:00 (25 real hours).  After the 25 h sleep the wall clock reads 06:00.  The legacy loop compares it with
-`time_next` and runs the function; `TimeTriggerDecorator._cycle` compares it with `time_next_adj`, sleeps another hour and runs
-the function when the wall clock reads 07:00. -/
-theorem C06_cex_new_cron_fall_back :
+/-- regression for C06-F5 (new subsystem, fixed by 0421163): `cron(0 6 * * *)`, last run Saturday 2024-11-02 06:00 PDT;
+`time_next` = Sunday 06:00, `time_next_adj` = 07:00 (25 real hours).  After the 25 h sleep the wall clock reads 06:00.
+`TimeTriggerDecorator._cycle` used to compare it with `time_next_adj`, slept another hour and ran the function when the wall
+clock read 07:00; now – like the legacy loop – it compares with `time_next` and runs the function at 06:00. -/
+theorem C06_regress_new_cron_fall_back :
     let next : Int := 1730613600000000
     let adj : Int := 1730617200000000
     let r1 : Int := 1730552400000000 + (adj - 1730527200000000)
-    wallAt zFall (waitFire WFlags.legacy zFall next adj 4 r1) = next ∧
-    wallAt zFall (waitFire WFlags.new zFall next adj 4 r1) = next + 3600000000 := by
+    wallAt zFall (waitFire WFlags.newPreFix zFall next adj 4 r1) = next + 3600000000 ∧
+    wallAt zFall (waitFire WFlags.new zFall next adj 4 r1) = next ∧
+    wallAt zFall (waitFire WFlags.legacy zFall next adj 4 r1) = next := by
   decide
 
 /-- finding C06-F6 (both subsystems): `once(06:30)`, last run Saturday 2024-03-09 06:30 PST; `time_next = time_next_adj` =
